@@ -75,3 +75,36 @@ def fold_parse_board(repo, rule, lines):
         return ('raise', r.kind)
     except Unsupported as e:
         raise AnalysisError(rule, 'PbnParser.parse_board', f'left the foldable subset: {e}')
+
+
+def line_source(repo, rule):
+    """How parse_stream obtains its lines: ('iter', None) for `for line in fp`, ('readline', n|None) for fp.readline([n])
+    (directly or through iter(lambda: fp.readline(n), '')).  Anything else is an unrecognised shape."""
+    ci, fn = repo.method('PbnParser', 'parse_stream', rule)
+    fp = fn.args.args[1].arg if len(fn.args.args) > 1 else None
+    f = Folder(repo, allow_loops=True)
+    loops = [n for n in ast.walk(fn) if isinstance(n, ast.For) and isinstance(n.target, ast.Name) and n.target.id == 'line']
+    rl = [n for n in ast.walk(fn) if isinstance(n, ast.Call) and isinstance(n.func, ast.Attribute) and n.func.attr in ('readline', 'read', 'readlines')
+          and isinstance(n.func.value, ast.Name) and n.func.value.id == fp]
+    if len(loops) == 1 and isinstance(loops[0].iter, ast.Name) and loops[0].iter.id == fp and not rl:
+        return 'iter', None, loops[0]
+    if len(rl) == 1 and rl[0].func.attr == 'readline':
+        arg = rl[0].args[0] if rl[0].args else (rl[0].keywords[0].value if rl[0].keywords else None)
+        if arg is None:
+            return 'readline', None, rl[0]
+        try:
+            n = f._eval(arg, {'self': DV(ci, {})}, ci.module, ci)
+        except (Unsupported, FoldRaise) as e:
+            raise AnalysisError(rule, 'PbnParser.parse_stream', f'size argument of readline is not constant: {e}')
+        return 'readline', n, rl[0]
+    raise AnalysisError(rule, 'PbnParser.parse_stream', 'cannot identify how lines are taken from the stream (`for line in fp` or fp.readline expected)')
+
+
+def check_line_source(chk, rule, repo, max_line=255):
+    kind, n, node = line_source(repo, rule)
+    ci = repo.cls('PbnParser', rule)
+    ok = n is None or (isinstance(n, int) and (n < 0 or n >= max_line))
+    chk.require(ok, rule, repo.where(ci.module, node), 'PbnParser.parse_stream', f'lines taken by {kind}({n if n is not None else ""})',
+                'the reader takes whole lines from the stream (a legal PBN line has up to 255 characters including the newline)',
+                f'`{ast.unparse(node)}` returns at most {n} characters per call: a legal line of {max_line} characters (which the writer produces for long values) is '
+                f'split, its remainder "\\n" fullmatches the game-separator pattern, and one game is read as two')
